@@ -339,13 +339,39 @@ AsArrayStep ==
                   \* converting a signal yields exactly what converting its data yields
                   [AllTrue EXCEPT !.asarray = got = raw])
 
+(***************************************************************************)
+(* astropy's == and != with a Quantity on the left.  Quantity.__eq__ /     *)
+(* __ne__ do not go through NumPy's override protocol: they convert the    *)
+(* other operand themselves (Signal.__array__) and compare the values, so  *)
+(* neither Signal.__array_ufunc__ nor a reflected Signal method is ever    *)
+(* consulted.  The result is a plain boolean array (a plain bool when the  *)
+(* units do not match) holding the values of the same comparison on the    *)
+(* data - it cannot be wrapped by pulsarbat.  Modelled as astropy defines  *)
+(* it; the wrapping clause does not apply (documented, not an alarm).      *)
+(***************************************************************************)
+QtyEqStep ==
+  /\ Len(hist) < FreeDepth
+  /\ \E q, s \in 1..Len(heap) :
+       /\ heap[q].kind = "qty" /\ heap[s].kind = "sig"
+       /\ (Canonical /\ hist = <<>>) => (Len(heap) = 2 /\ q = 1 /\ s = 2)
+       /\ LET t == App("eq", 1, <<heap[q].term, heap[s].term>>)
+              h2 == Append(heap, [kind |-> "arr", cls |-> "-", meta |-> 0, dk |-> "-", term |-> t])
+          IN Step([act |-> "qty_eq", u |-> "eq", nin |-> 2, nout |-> 1, m |-> "-", ins |-> <<q, s>>, outs |-> <<>>,
+                   rk |-> <<>>, d |-> "-", cp |-> "-", st |-> "ok", self |-> 0,
+                   res |-> <<[how |-> "plain", idx |-> Len(heap) + 1, cls |-> "-", meta |-> 0, dk |-> "b1"]>>,
+                   sub |-> FALSE],
+                  [st |-> "ok", heap |-> h2],
+                  \* values of the comparison on the data; operands untouched
+                  [AllTrue EXCEPT !.values = h2[Len(h2)].term = App("eq", 1, Unwrap(heap, <<q, s>>)),
+                                  !.frame = \A i \in 1..Len(heap) : h2[i] = heap[i]])
+
 Init == /\ heap0 \in Heaps
         /\ heap = MkHeap(heap0)
         /\ hist = <<>>
         /\ chk = AllTrue
 
 Next == /\ Len(hist) < MaxDepth
-        /\ (UfuncStep \/ AsArrayStep)
+        /\ (UfuncStep \/ AsArrayStep \/ QtyEqStep)
 
 Spec == Init /\ [][Next]_vars
 
